@@ -57,11 +57,37 @@ CORPUS = [
     (2, ["a:0.0.0.0,1.0.1.0,2.1.0.5", "l", "b", "s:0:B", "l", "l"]),
     # two overdue shares complete after their replacement: more than k blocks
     (1, ["a:0.0.0.0,1.1.1.0", "l", "s:0:O", "l", "s:0:C", "s:1:C", "l", "l"]),
+    # seeded C03-b: server 0 holds a damaged share (sh0, DEAD) and an intact one (sh1) that is still unused when sh0
+    # dies (diversity limit: server 1's sh2 is active); sh1 + sh2 are k = 2 good share numbers
+    (2, ["a:0.2.1.0", "l", "a:1.0.0.1,2.1.0.1", "l", "s:1:D", "l", "n", "l", "s:0:C", "s:2:C", "l", "l"]),
     # past harness disagreements: the same share object announced again after no_more_shares
     (2, ["a:-", "l", "a:0.1.0.3,1.0.0.2", "l", "n", "s:0:O", "a:1.0.0.2", "l", "s:0:C", "l", "l", "s:1:D", "l", "l"]),
     (2, ["a:2.0.4.3,3.0.1.0,0.0.3.1,1.1.0.1", "l", "s:1:O", "n", "l", "l", "s:3:C", "a:1.1.0.1", "l", "s:1:C", "b", "l",
          "s:2:X", "l"]),
 ]
+
+
+def corpus_fetch_monitor(ctx, k, toks, verdict):
+    """the statement on a fixed fair script: shares answering C are the good ones; >= k distinct good share numbers
+    => process_blocks, otherwise NotEnoughShares/NoShares.  Scripts with stop / bad segnum / KeyError are skipped."""
+    if any(t in ("x", "b") for t in toks) or toks.count("n") == 0:
+        return
+    announced = [x.split(".")[0] for t in toks if t.startswith("a:") and t != "a:-" for x in t[2:].split(",")]
+    if len(announced) != len(set(announced)) or any(t.endswith(":O") and toks.count(t) > 1 for t in toks):
+        return          # malformed stream (re-announcement, OVERDUE twice): outside `Fair`
+    shares = {}
+    for t in toks:
+        if t.startswith("a:") and t != "a:-":
+            for x in t[2:].split(","):
+                sid, shnum, server, rtt = [int(y) for y in x.split(".")]
+                shares[sid] = shnum
+    good = set(shares[int(t.split(":")[1])] for t in toks if t.startswith("s:") and t.endswith(":C"))
+    case = {"kind": "fetch", "k": k, "toks": toks}
+    if len(good) >= k and not (verdict or "").startswith("blocks:"):
+        ctx.violation(">= k distinct good share numbers answered COMPLETE but the fetcher ended with %s" % verdict, case,
+                      "fetcher-failed-with-enough")
+    if len(good) < k and verdict not in ("failed:NotEnoughShares", "failed:NoShares"):
+        ctx.violation("< k good share numbers but the fetcher ended with %s" % verdict, case, "fetcher-wrong-end-with-too-few")
 
 
 def fetch_monitor(ctx, k, toks, info):
@@ -162,6 +188,7 @@ def late_error_monitor(ctx, sc, out):
 
 def run(ctx):
     common.setup_impl_path()
+    B = (lambda q, t: 0) if fc.corpus_only() else ctx.budget
     fcases, impl, lines = [], [], []
     scenarios = []
     late = []
@@ -183,7 +210,8 @@ def run(ctx):
             impl.append(";".join(digs))
             lines.append("fetch %d %s" % (k, " ".join(toks)))
             ctx.case(("F", k, tuple(toks)))
-        for i in range(ctx.budget(600, 30000)):
+            corpus_fetch_monitor(ctx, k, toks, verdict)
+        for i in range(B(600, 30000)):
             malformed = (i % 3 == 2)
             k, toks, digs, info = fc.gen_fetch_script(ctx.rng, malformed=malformed, max_events=300)
             fcases.append({"kind": "fetch", "k": k, "toks": toks})
@@ -202,18 +230,21 @@ def run(ctx):
                 ctx.count("fetch-overdue")
             if not malformed and len(toks) < 300:
                 fetch_monitor(ctx, k, toks, info)
-        for i in range(ctx.budget(200, 6000)):
+        for i in range(B(200, 6000)):
             scenarios.append(fc.gen_scenario(ctx.rng))
+        for name, sc in fc.GRID_CORPUS:                    # fixed end-to-end corpus, one history per known mechanism
+            if not sc["crafted"]:                          # (deliberately inconsistent files are C46's business)
+                scenarios.insert(0, dict(sc, corpus=name))
         # corpus: intact 1-of-2 file, 128-byte segments, reader guesses 17: first read at 384 (guessed segnum 22 of 6)
         scenarios.append({"kind": "grid", "k": 1, "n": 2, "servers": 2, "segsize": 128, "gmax": 17, "fresh_nodes": True,
                           "size": 700, "grid_seed": 816538223, "policy": "random", "dataseed": 268472504, "copies": [],
                           "share_faults": [], "server_plans": {}, "reads": [[[384, 17]], [[373, 2]]], "crafted": []})
-        for i in range(ctx.budget(50, 1500)):
+        for i in range(B(50, 1500)):
             scenarios.append(fc.gen_badguess_scenario(ctx.rng, faults=(i % 2 == 1)))
-        if ctx.tier == "thorough":
+        if ctx.tier == "thorough" and not fc.corpus_only():
             scenarios.append(fc.big_badguess_scenario())
         late.append(fc.gen_late_error_scenario(None, canonical=True))      # corpus: minimised history
-        for i in range(ctx.budget(30, 700)):
+        for i in range(B(30, 700)):
             late.append(fc.gen_late_error_scenario(ctx.rng))
     model = ctx.model(lines) if lines else None
     if model is not None:
